@@ -146,6 +146,7 @@ theorem inplace_spec (f : Arr → Arr) : ∀ k, InplaceSpec f (inplace expectedD
             obtain ⟨b, hb1, hb2⟩ := hr
             exact ⟨b, by rw [lookup_setSlot_ne fs _ hne]; exact hb1, hb2⟩
           | dict items => trivial
+          | deep toks => trivial
         · intro hc
           obtain ⟨mm, ms, e1, e2', e3⟩ := (hlab.frame f1).frame f2 hc
           exact ⟨mm, ms, by rw [lookup_setSlot_ne fs _ (by decide)]; exact e1, e2', e3⟩
